@@ -115,7 +115,7 @@ type runInfo struct {
 var curRun atomic.Pointer[runInfo]
 
 func startWatchdog(prop, dir string) {
-	limit := time.Duration(envInt("VERIF_SPIN_S", 30)) * time.Second
+	limit := time.Duration(envInt("VERIF_SPIN_S", 120)) * time.Second
 	go func() {
 		var lastProg uint64
 		var lastRun *runInfo
